@@ -14,8 +14,8 @@ def wrap(fn, n):
 
 if __name__ == '__main__':
     c = Collector()
-    c.run('C13.raw_requests', 'B', wrap(replays_C13.handler_escape, 12), replay_fn='C13:handler_escape',
-          bound='12 malformed / valid raw requests (bad content-length, truncated / negative / empty chunked bodies, '
+    c.run('C13.raw_requests', 'B', wrap(replays_C13.handler_escape, 38), replay_fn='C13:handler_escape',
+          bound='38 malformed / valid raw requests (incl. 13 sloppy Accept-Encoding headers on POST and GET; (bad content-length, truncated / negative / empty chunked bodies, '
                 'unknown coding, corrupt gzip, unknown and malformed paths) against the real server thread')
     c.run('C13.dechunk_streams', 'B', wrap(replays_C13.dechunk, 38), replay_fn='C13:dechunk',
           bound='all truncations of a valid 3-chunk body + 8 malformed streams, 2 s time limit each')
